@@ -1013,13 +1013,15 @@ impl GraphDatabase {
             .await?;
 
         let res = recieve.await??;
-        if let Some(serialized_dm) = res {
-            let dam: DataModel = serde_json::from_str(&serialized_dm)?;
-            self.data_model = dam;
-        }
+        //the current model is only replaced when the new one has been accepted
+        let mut data_model = match res {
+            Some(serialized_dm) => serde_json::from_str(&serialized_dm)?,
+            None => self.data_model.clone(),
+        };
 
-        self.data_model.update_system(SYSTEM_DATA_MODEL)?;
-        self.data_model.update(model)?;
+        data_model.update_system(SYSTEM_DATA_MODEL)?;
+        data_model.update(model)?;
+        self.data_model = data_model;
 
         let str = serde_json::to_string(&self.data_model)?;
 
